@@ -263,9 +263,10 @@ def make_case(rng):
 
 
 def run(ctx):
-    ok = ctx.build(['props/C13.vo', 'run/MarkupRun.vo', 'run/CssstreamRun.vo', 'run/StyleEvents.vo'])
+    ok = ctx.build(['props/C13.vo', 'props/C13Css.vo', 'run/MarkupRun.vo', 'run/CssstreamRun.vo', 'run/StyleEvents.vo'])
     if ok:
         ctx.obligations('props/C13.v')
+        su.obligations(ctx, 'props/C13Css.v')
     model = ctx.model('markup') if ok else None
     ctx.cov['rule'] = (
         'markup: abbreviations from the statement AST generator (attributes with empty / boolean / quoted / expression / '
@@ -450,6 +451,13 @@ def css_stream(ctx, ok):
         bad = cu.css_oracle(r[1], r[2], r[3], r[4])
         if bad:
             css_stream_failure(ctx, 'expand', abbr, cfg, None, bad, cfg.tabstop)
+        # hypothesis css_raw_ok of C13_css_callback_positions_exact / ..._partial on the RESOLVED properties
+        if cu.raw_ok(r[3], r[4]):
+            ctx.cover('C13:css-raw-ok-holds')
+        elif '\n' not in r[4]['stylesheet.after']:
+            ctx.cover('C13:css-raw-ok-fails')
+            ctx.broken.append({'kind': 'theorem-hypothesis', 'file': 'props/C13Css.v css_raw_ok', 'input': abbr,
+                               'config': cfg.to_json(), 'detail': 'a FunctionCall name of the resolved properties contains a line feed'})
         ctx.cover('C13:css-syntax-' + cfg.syntax)
         ctx.cover('C13:css-newline-' + repr(r[4]['output.newline']))
         ctx.cover('C13:css-callback-' + ('tabstop' if cfg.tabstop else 'identity'))
